@@ -6,7 +6,7 @@ pyscsi.utils.enum.Enum with EnumM on random operation sequences over several liv
 oracle is an ordinary Python dict undergoing the same operations."""
 import random
 
-from lib import common
+from lib import cmds, common
 from lib.common import Driver
 
 TARGETS = ["ScsiVerif.Props.C18"]
@@ -117,7 +117,8 @@ def run(res, tier, build_ok):
             elif what == "rev":
                 v = rng.choice(list(o.values())) if o and rng.random() < 0.8 else value(kind, 99)
                 r = "rev=" + e[v]
-                want = "rev=" + next((kk for kk, vv in o.items() if vv == v), "")
+                # "a name carrying that value": the dictionary is searched by token (OpCode objects are themselves, not their code)
+                want = "rev=" + next((kk for kk, vv in o.items() if tok(vv) == tok(v)), "")
                 ops.append("v:%d:%s" % (j, tok(v)))
             else:
                 r = "keys=" + ",".join(e.keys)
@@ -136,10 +137,20 @@ def run(res, tier, build_ok):
         res.count("value kind " + "/".join(sorted(set(kinds))))
         res.count("ops", len(ops))
         reqs.append(("enumworld %s %s" % ("|".join(inits), ";".join(ops)), "ok " + ";".join(obs)))
+    # ---- the library's own tables: reverse lookup of every entry's value gives a name that carries that very value
+    #      (operation codes sharing a code byte — MAINTENANCE IN / the per-set A3h alias — are different values)
+    for sn, table in cmds.opcode_sets().items():
+        for k in list(table.keys):
+            v = getattr(table, k)
+            back = table[v]
+            res.count("library table reverse lookups")
+            if not back or getattr(table, back, None) is not v:
+                res.violation("library table reverse lookup", "%s[%s.%s] returns %r, a name that does not carry that value" % (sn, sn, k, back),
+                              {"set": sn, "name": k, "returned": back})
+                break
     # ---- the library's own enumerations: the service-action enumeration of every operation code of every command
     #      set is an enumeration of its own; adding to / removing from one leaves every other one (same name in
     #      another set, another name in the same set) as it was.  The tables are restored afterwards.
-    from lib import cmds
     sets = cmds.opcode_sets()
     owners = [(sn, k, getattr(e, k)) for sn, e in sets.items() for k in e.keys]
     owners = [(sn, k, oc) for sn, k, oc in owners if hasattr(oc, "serviceaction")]
